@@ -255,16 +255,22 @@ pub fn pos_from_board(b: &Board) -> Result<Pos, String> {
 
 /// C17 second half: the moves really examined at every quiescence node of a real search.
 fn c17_search_log(p: &Pos, depth: u8, st: &mut Stats, origin: &str) {
-    c17_search_log_after(&[], p, depth, st, origin)
+    c17_search_log_after(&[], None, p, depth, st, origin)
 }
 
 /// `earlier`: positions (with depths) searched first on the SAME engine without logging — as in a
 /// game, where the positions now past the horizon were interior nodes of the previous search and
 /// have entries in the engine's tables.
-fn c17_search_log_after(earlier: &[(Pos, u8)], p: &Pos, depth: u8, st: &mut Stats, origin: &str) {
+/// `game_cmd`: a position command (a game leading to `p`) given to the engine's own handler first, so
+/// that the search runs with the game history on record.
+fn c17_search_log_after(earlier: &[(Pos, u8)], game_cmd: Option<&str>, p: &Pos, depth: u8, st: &mut Stats, origin: &str) {
     let b = eng::board_from_pos(p);
     let r = engine_call(|| {
-        let mut s = Searcher::new();
+        let mut holder = crate::uci::Flounder::new();
+        if let Some(cmd) = game_cmd {
+            holder.verif_handle_command(cmd);
+        }
+        let s = holder.verif_searcher();
         for (q, d) in earlier.iter() {
             s.verif_timer().node_limit = Some(150_000);
             s.find_best_move(&eng::board_from_pos(q), *d, None);
@@ -323,6 +329,7 @@ fn c17_search_log_after(earlier: &[(Pos, u8)], p: &Pos, depth: u8, st: &mut Stat
                         ("fen", J::s(p.to_fen())),
                         ("depth", J::i(depth as i64)),
                         ("earlier", J::Arr(earlier.iter().map(|(q, d)| J::obj(vec![("fen", J::s(q.to_fen())), ("depth", J::i(*d as i64))])).collect())),
+                        ("game_command", J::s(game_cmd.unwrap_or(""))),
                         ("node", J::s(qp.to_fen())),
                         ("examined_move", J::s(u.clone())),
                     ]),
@@ -367,6 +374,7 @@ fn c17_search_log_after(earlier: &[(Pos, u8)], p: &Pos, depth: u8, st: &mut Stat
                     ("fen", J::s(p.to_fen())),
                     ("depth", J::i(depth as i64)),
                     ("earlier", J::Arr(earlier.iter().map(|(q, d)| J::obj(vec![("fen", J::s(q.to_fen())), ("depth", J::i(*d as i64))])).collect())),
+                    ("game_command", J::s(game_cmd.unwrap_or(""))),
                     ("node", J::s(qp.to_fen())),
                     ("engine_only", J::arr_s(extra)),
                     ("missing", J::arr_s(missing)),
@@ -518,7 +526,8 @@ fn replay(ctx: &Ctx, which: Which, case: &J, mg: &MoveGenerator, st: &mut Stats)
         }
         "qlog" => {
             let earlier: Vec<(Pos, u8)> = case.get("earlier").and_then(|a| a.as_arr()).map(|a| a.iter().filter_map(|e| Pos::from_fen(&e.str_of("fen")).ok().map(|q| (q, e.int_of("depth") as u8))).collect()).unwrap_or_default();
-            c17_search_log_after(&earlier, &p, case.int_of("depth") as u8, st, "replay")
+            let gc = case.str_of("game_command");
+            c17_search_log_after(&earlier, if gc.is_empty() { None } else { Some(gc.as_str()) }, &p, case.int_of("depth") as u8, st, "replay")
         }
         "sibling" => {
             let b = eng::board_from_pos(&p);
@@ -618,6 +627,28 @@ pub fn run(ctx: &Ctx) -> i32 {
                     continue;
                 }
                 let d = 1 + rng.below(2) as u8;
+                if done % 4 == 2 {
+                    // a game given with the position command, in which positions near the current one
+                    // are on record two or three times: the search runs with that history
+                    let g = if done % 8 == 2 {
+                        match crate::props::position::perpetual_game(&mut rng) {
+                            Some(g) => {
+                                st.bump("searches_logged_after_an_offset_perpetual_check_history");
+                                g
+                            }
+                            None => crate::props::position::repeat_game(&mut rng),
+                        }
+                    } else {
+                        crate::props::position::repeat_game(&mut rng)
+                    };
+                    if !g.current().legal_moves().is_empty() {
+                        let cmd = g.command(None);
+                        c17_search_log_after(&[], Some(&cmd), g.current(), 1 + rng.below(3) as u8, &mut st, "search_log_with_game_history");
+                        st.bump("searches_logged_with_a_repeating_game_history_on_record");
+                        done += 1;
+                        continue;
+                    }
+                }
                 if done % 2 == 1 {
                     // game continuation: search the position two plies earlier (deeper) first, on the
                     // same engine, then log the search of this position
@@ -628,7 +659,7 @@ pub fn run(ctx: &Ctx) -> i32 {
                         if ps.len() > 2 && rng.chance(1, 2) {
                             earlier.push((ps[1].clone(), 2u8));
                         }
-                        c17_search_log_after(&earlier, &later, d, &mut st, "search_log_continued_game");
+                        c17_search_log_after(&earlier, None, &later, d, &mut st, "search_log_continued_game");
                         st.bump("searches_logged_on_an_engine_that_searched_the_game_before");
                         done += 1;
                         continue;
@@ -667,9 +698,9 @@ fn spec(which: Which, replay: bool) -> Spec<'static> {
         },
         Which::C17 => Spec {
             level: "exploration",
-            rule: "cases are (a) positions not in check on which generate_quiescence_moves is compared with {legal moves that capture, promote or give check} and (b) every quiescence node logged by real depth 1-2 searches (qnodes_logged) — on fresh engines and on engines that have just searched the position two plies earlier in the same game, so that the nodes now past the horizon have table entries — compared with that set or, when in check, with all legal moves; a second event log holds every (position, move) the quiescence search actually recursed into, each of which must belong to the expected set of its position; distinct by position identity, non-trivial when the expected set is non-empty / the position is not in check and has legal moves",
+            rule: "cases are (a) positions not in check on which generate_quiescence_moves is compared with {legal moves that capture, promote or give check} and (b) every quiescence node logged by real depth 1-2 searches (qnodes_logged) — on fresh engines and on engines that have just searched the position two plies earlier in the same game, and after position commands giving games that repeat positions (the search then runs with that history on record), so that the nodes now past the horizon have table entries — compared with that set or, when in check, with all legal moves; a second event log holds every (position, move) the quiescence search actually recursed into, each of which must belong to the expected set of its position; distinct by position identity, non-trivial when the expected set is non-empty / the position is not in check and has legal moves",
             assumptions,
-            required: if replay { vec![] } else { vec!["q_ep_capture", "q_promotion", "q_quiet_check", "q_discovered_check", "qnodes_logged", "qnodes_in_check", "qnodes_not_in_check", "searches_logged_on_an_engine_that_searched_the_game_before", "quiescence_recursions_logged", "sibling_call_pairs"] },
+            required: if replay { vec![] } else { vec!["q_ep_capture", "q_promotion", "q_quiet_check", "q_discovered_check", "qnodes_logged", "qnodes_in_check", "qnodes_not_in_check", "searches_logged_on_an_engine_that_searched_the_game_before", "quiescence_recursions_logged", "sibling_call_pairs", "searches_logged_with_a_repeating_game_history_on_record", "searches_logged_after_an_offset_perpetual_check_history"] },
             exhaustive: false,
             extra: vec![],
         },
